@@ -447,6 +447,49 @@ Proof.
     rewrite (mcols_wf _ _ _ Hwf Hr). auto.
 Qed.
 
+(* ---- wave 3: why the exact element types cannot see a one-pass "optimisation" ----
+   In EVERY field (N <> 0) the population covariance equals E[xy] - E[x] E[y] and the variance
+   E[x^2] - E[x]^2: a refactoring of the two-pass code into the one-pass formula changes no value
+   on Rat / Fp / the reals.  On floats it loses all precision for data with a large common offset;
+   that is what the float tier of the correspondence (ops 8, 9) is for. *)
+Lemma sum_centered (a b : R) xs : forall ys, length xs = length ys ->
+  sumR ops (map (fun xy => (fst xy [-] a) [*] (snd xy [-] b)) (combine xs ys)) =
+  sumR ops (map (fun xy => fst xy [*] snd xy) (combine xs ys)) [-] a [*] sumR ops ys [-] b [*] sumR ops xs
+    [+] natR ops (length xs) [*] a [*] b.
+Proof.
+  induction xs as [|x xs IH]; intros [|y ys] Hlen; try discriminate; cbn [combine map sumR fold_right length natR fst snd].
+  - ring.
+  - injection Hlen as Hlen. fold (sumR ops xs). fold (sumR ops ys).
+    change (fold_right (nadd ops) rO (map (fun xy => (fst xy [-] a) [*] (snd xy [-] b)) (combine xs ys)))
+      with (sumR ops (map (fun xy => (fst xy [-] a) [*] (snd xy [-] b)) (combine xs ys))).
+    change (fold_right (nadd ops) rO (map (fun xy => fst xy [*] snd xy) (combine xs ys)))
+      with (sumR ops (map (fun xy => fst xy [*] snd xy) (combine xs ys))).
+    rewrite (IH ys Hlen). ring.
+Qed.
+
+Theorem cov_one_pass xs ys : length xs = length ys -> natR ops (length xs) <> rO ->
+  cov_spec ops xs ys =
+  (sumR ops (map (fun xy => fst xy [*] snd xy) (combine xs ys)) [/] natR ops (length xs))
+    [-] mean_spec ops xs [*] mean_spec ops ys.
+Proof.
+  intros Hlen Hn. unfold cov_spec, mean_spec. rewrite <- Hlen.
+  rewrite (sum_centered _ _ xs ys Hlen). field. exact Hn.
+Qed.
+
+Lemma combine_self_map (f : R -> R -> R) l :
+  map (fun xy => f (fst xy) (snd xy)) (combine l l) = map (fun x => f x x) l.
+Proof. induction l as [|x l IH]; cbn; [reflexivity | now rewrite IH]. Qed.
+
+Theorem var_one_pass l : natR ops (length l) <> rO ->
+  var_spec ops l =
+  (sumR ops (map (fun x => x [*] x) l) [/] natR ops (length l)) [-] mean_spec ops l [*] mean_spec ops l.
+Proof.
+  intros Hn.
+  rewrite <- (combine_self_map (fun x y => x [*] y) l).
+  rewrite <- (cov_one_pass l l eq_refl Hn). unfold var_spec, cov_spec.
+  now rewrite (combine_self_map (fun x y => (x [-] mean_spec ops l) [*] (y [-] mean_spec ops l)) l).
+Qed.
+
 End FieldStats.
 
 (* ================================================================================== *)
